@@ -10,7 +10,7 @@ LEVEL = "translation_validation"
 ANCHOR_PREFIXES = ["loop_el::", "transform::", "expression::eval_condition", "expression::eval_list", "expression::", "context::", "element::", "position::"]
 BOUNDS = ("bodies of 1-3 elements from {shape using the loop variable, ^|h chain, ^@br circle, accumulating <var>, group, text, nested <if> on the loop variable, nested count loop}; forms: count 0..3 "
           "with and without loop-var (symbolic start/step, either sign), while / until over a counter with symbolic start, step and bound (trip count 0..3 resp. 1..3 fixed by an assumption over the "
-          "symbolic values), <for> over 1..3 symbolic items with optional index, <if> with a symbolic test (both outcomes, also a test that needs an element defined later); every loop is followed by an element reading the loop variable (over a pre-existing variable of that name); count given as an expression over a variable the body changes; arithmetic (non-comparison) conditions; loops at top level and inside <g>; values k/2 in [-64,64]; seeded generated bodies (quick 60, thorough 600) of 1-4 items over the element vocabulary (shapes at $i-expressions, '^'-relative shapes, text, accumulators, nested if / loop / g, reuse, polyline, path, use, surround, point, box, relative sizes, bodies that write the loop variable); start / step finer than 1/1000; many false <if> in long loops")
+          "symbolic values), <for> over 1..3 symbolic items with optional index, <if> with a symbolic test (both outcomes, also a test that needs an element defined later); every loop is followed by an element reading the loop variable (over a pre-existing variable of that name); count given as an expression over a variable the body changes; arithmetic (non-comparison) conditions; loops at top level and inside <g>; values k/2 in [-64,64]; seeded generated bodies (quick 60, thorough 600) of 1-4 items over the element vocabulary (shapes at $i-expressions, '^'-relative shapes, text, accumulators, nested if / loop / g, reuse, polyline, path, use, surround, point, box, relative sizes, bodies that write the loop variable); start / step finer than 1/1000; many false <if> in long loops; ground families: tests over variables holding expression text, count expressions whose single-precision value lies just below a whole number, while / until conditions over element references, passes that render nothing (last, middle, inside a referenced group)")
 ASSUMPTIONS = ["the unrolled twin is generated mechanically: body copied k times with the loop variable bound by <var> to start, start+step, ... (repeated addition), <for> items bound in turn with their index, <if> replaced by its body or by nothing",
                "both documents run in one engine session over the same symbolic values; the whole output (element sequence, attributes, root extent) is compared"]
 
